@@ -500,7 +500,7 @@ def strategy(tier):
             ag = {'alpha': alpha, 'rho': rho, 'c': cc, 'maxiter': pick([0, 1, 2, 2, 3, 5, 5, 8]),
                   'method': pick(['Armijo', 'Armijo', 'Goldstein'])}
         u0, du, a, q, vars_ = [], [], [], [], []
-        negprob = pick([0, 0, 1, 3])        # how often ref - ref0 is negative (0: never)
+        negprob = pick([0, 0, 0, 1, 2])        # how often ref - ref0 is negative (0: never)
         for nk in sizes:
             if nk == 4 and below(4) == 0:
                 shape = [2, 2]
